@@ -1,5 +1,5 @@
 """C10: page store - spelling agreement between add_page and get_page (recorder stub, symbolic titles) and
-read-after-write over bounded histories on the real SQLite store + real lru_cache (CrossHair)."""
+read-after-write over bounded histories on the real SQLite store + real lru_cache (history chosen by CrossHair, operations untraced)."""
 import os
 
 from wikitextprocessor import Wtp
@@ -118,9 +118,39 @@ def apply_model(m: dict, op: int, t: int):
     return (p[0], p[1])
 
 
+def _clear_memos():
+    # every lru_cache found on the class (not only the one known today)
+    for name, v in vars(Wtp).items():
+        if hasattr(v, "cache_clear"):
+            v.cache_clear()
+
+
 def run_history(ops) -> bool:
+    """CrossHair replaces functools.lru_cache wrappers by the undecorated function while it traces
+    (crosshair/libimpl/functoolslib.py), which would hide exactly the memoisation this property is about.  The solver
+    therefore only chooses the history (operation kinds and titles are realised, one solver query per fork), and the
+    operations themselves run untraced on the real store with the real memo."""
+    from crosshair.tracers import NoTracing, is_tracing
+
+    if is_tracing():
+        # case split by comparisons (not crosshair.realize: a variable that is always realised makes CrossHair realise it
+        # "prematurely", before the precondition bounds it, and that unbounded subtree can never be exhausted)
+        ops = [(_pick(op, len(OPS)), _pick(t, len(TITLES))) for op, t in ops]
+        with NoTracing():
+            return _run_history(ops)
+    return _run_history(ops)
+
+
+def _pick(x, n: int) -> int:
+    for v in range(n):
+        if x == v:
+            return v
+    raise AssertionError("outside the precondition")
+
+
+def _run_history(ops) -> bool:
     ctx.db_conn.execute("DELETE FROM pages")
-    Wtp.get_page.cache_clear()
+    _clear_memos()
     m: dict = {}
     for op, t in ops:
         if apply_real(op, t) != apply_model(m, op, t):
